@@ -447,12 +447,30 @@ def r3(db, rep):
     writes = [n for n in facts.fn_nodes(f) if n["k"] == "CXXMemberCallExpr" and n.get("cname") == "write" and
               "header_" in facts.expr_str(n)]
     key = "it_len"
+    # ... or through the class's own setter (`length(header_size())`): the setter's body is the store, its argument the value
+    via_setter = None
+    if not store:
+        for c in facts.fn_nodes(f):
+            if c["k"] == "CXXMemberCallExpr" and c.get("callee") and len(c["c"]) == 2:
+                h = db.fn(c["callee"])
+                if h is not None and h.get("body") and h.get("rec") == f.get("rec") and len(h.get("params", ())) == 1:
+                    hs = [n for n in facts.fn_nodes(h) if n["k"] == "BinaryOperator" and n.get("op") == "=" and
+                          facts.expr_str(n["c"][0]).endswith("it_len")]
+                    if hs and any(x["k"] == "DeclRefExpr" and x.get("var") == h["params"][0]["var"] for x in facts.walk(hs[0]["c"][1])):
+                        via_setter = (c, h, hs[0])
+                        store = [c]
     if not store or not writes:
         rep.violation("R3-derived", key, facts.loc(f), "write_serialization does not store it_len and write the header")
     else:
         s = store[0]
-        derived = any(x["k"] == "CXXMemberCallExpr" and x.get("cname") == "header_size" for x in facts.walk(s["c"][1]))
-        le = any(x["k"] == "CallExpr" and x.get("cname") == "host_to_le" for x in facts.walk(s["c"][1]))
+        if via_setter:
+            value = facts.inline_locals(f, via_setter[0]["c"][1])
+            derived = any(x["k"] == "CXXMemberCallExpr" and x.get("cname") == "header_size" for x in facts.walk(value))
+            le = any(x["k"] == "CallExpr" and x.get("cname") == "host_to_le" for x in facts.walk(via_setter[2]["c"][1]))
+        else:
+            value = facts.inline_locals(f, s["c"][1])
+            derived = any(x["k"] == "CXXMemberCallExpr" and x.get("cname") == "header_size" for x in facts.walk(value))
+            le = any(x["k"] == "CallExpr" and x.get("cname") == "host_to_le" for x in facts.walk(value))
         before = g.before_on_all_paths(g.pos(s), g.pos(writes[0]))
         if derived and le and before:
             rep.ok("R3-derived", key, facts.loc(f, s), "it_len = host_to_le(header_size()) dominates stream.write(header_)")
